@@ -4,6 +4,11 @@ import json, os
 HERE = os.path.dirname(os.path.abspath(__file__))
 ALL = ["C%02d" % i for i in range(1, 21)]
 CHECKS = {
+ "C01": dict(
+  category="exploration", design_ref="DESIGN.md §2 C01",
+  text="The real Lexer runs under a cursor monitor (every cascade step recorded with cursor before/after and nodes appended) on every concatenation of <=k directive-fragment tokens (exhaustive; k=3 quick, k=4/5 thorough); a trace checker decides conservation (steps tile the source, every consumed character is in a node or is documented vanishing syntax, node positions convert back to their offsets). Rendered output is compared with an independent reference scanner for the literal/escape fragment and with by-construction expected output on random long documents. Termination/time is decided on CPU-time growth ratios of adversarial repetition families measured in child processes.",
+  note="Trusted: the harness's own copy of the consumption grammar and reference scanner; time bound is the bounded restatement 'no super-polynomial growth on the listed families up to n=8k'. One open known finding (exponential tag-attribute regex).",
+  technique="lexer cursor trace monitor + by-construction render oracle + CPU-time growth monitor"),
  "C10": dict(
   category="exploration", design_ref="DESIGN.md §2 C10",
   text="Runtime oracle over the real filter functions: every code point (exhaustive), every string of length <=3 over the markup alphabet (exhaustive), random mixtures, and the same strings through compiled templates; outputs judged by independent reference decoders. Exhaustive enumeration of single code points is the natural bound for per-character escaping functions.",
